@@ -160,6 +160,12 @@ Definition pcd_absorb (k : cfg) (cmd : bytes) (p : pcd) (a : aresult) : pcd :=
 Definition pcd_emit (p : pcd) : bytes :=
   match ph p with PSend _ _ d => d | PWtx _ d => d | PRecv _ d _ => d | PDone _ => [] end.
 
+(* the timeout handed to clf.exchange together with block [d], as a multiple of self.fwt:
+   n > 0: wtx_timeout = (data[1] & 0x3F) * self.fwt - exactly when the block is the echo of an S(WTX) request;
+   0: the caller's timeout, by default self.fwt + self.delta_fwt *)
+Definition blk_timeout (d : bytes) : Z :=
+  match d with b0 :: b1 :: _ => if is_wtx b0 then Z.land b1 63 else 0 | _ => 0 end.
+
 (* ------------------------------------------------------------------------------
    The card, from ISO/IEC 14443-4: block numbering rules C, D, E; block handling
    rules 2, 3, 9, 10, 11, 12, 13; no error recovery by the PICC (mute).  No CID, no NAD.
@@ -332,6 +338,7 @@ Definition demo_app (n : Z) (apdu : bytes) : bytes :=
   let body := demo_body (sum apdu) n ln in
   if (1 <=? len apdu) && (byte_at apdu 0 =? 255) then body
   else if (2 <=? len apdu) && (byte_at apdu 1 =? 238) then body ++ [106; 130]
+  else if (2 <=? len apdu) && (byte_at apdu 1 =? 108) then body ++ [108; 5]       (* wrong Le, 5 bytes available *)
   else body ++ [144; 0].
 
 (* ------------------------------------------------------------------------------
